@@ -39,8 +39,9 @@ class Concretiser:
             if n: return n
             if o.__module__ == 'builtins': return o.__name__
             return None
+        if isinstance(o, float) and o != o: return ns_name(o)      # a NaN is only itself: refer to it by its name in the shape namespace
         if isinstance(o, (int, str, float, bytes, type(None), bool)): return repr(o)
-        return None
+        return ns_name(o)
     def build(self, term, depth=0):
         m = self.m
         e = m.eval(term, model_completion=True)
